@@ -5,7 +5,7 @@
 From Coq Require Import List String Bool Permutation.
 Import ListNotations.
 From DI Require Import Syntax Tokens Bounds Param Subs Superset Substitute Spec RustSem Group Search Gen GenMain Validate IMap Hygiene Dispatch Examples ExamplesGroup ExamplesF16.
-From DI.proofs Require Import Basics SupersetSound SupersetExact SupersetComplete SupersetWf SubstituteProofs SubstituteSpec BoundsProofs DispatchProofs GroupProofs SearchProofs SearchFlat FlatSemantics GenProofs GenMainProofs ParamProofs ParamAlpha RustSemProofs ValidateProofs IMapProofs HygieneProofs.
+From DI.proofs Require Import Basics SupersetSound SupersetExact SupersetComplete SupersetWf SubstituteProofs SubstituteSpec BoundsProofs DispatchProofs GroupProofs SearchProofs SearchFlat FlatSemantics FlatConcrete GenProofs GenMainProofs ParamProofs ParamAlpha RustSemProofs ValidateProofs IMapProofs HygieneProofs.
 
 (* ===================================================================================== *)
 (* C09 -- header generalisation is exact first-order matching                             *)
@@ -607,6 +607,50 @@ Example C03_flat_nonvacuous :
   end = true.
 Proof. vm_compute. repeat split. discriminate. Qed.
 Print Assumptions C03_flat_nonvacuous.
+
+(* both flat-family theorems on concrete block terms
+     impl<X1, .., Xk> Tr for Self where B: T_i        (T_i = Dispatch<.., A = p_i>)
+   (what the abstract statements assume about a block is computed from its term): the search
+   puts the n blocks into one family with rows [p_i], and -- with the key value and row test of
+   C02_flat_grouping_invariant -- the trait is implemented exactly where some block applies *)
+Theorem C03_flat_blocks_one_family : forall tr self B a n names T p items,
+  let blk := fun i => flat_block (names i) tr self B (T i) (items i) in
+  let Hd := Node (K "GroupId" "") [tr; self] in
+  0 < n -> NoDup (map blk (seq 0 n)) -> cwf [] Hd = true ->
+  (forall i, i < n -> path_bindings (T i) = [(a, p i)]) ->
+  (forall i j, i < n -> j < n -> tb_eqb (T i) (T j) = true) ->
+  (forall i j, i < n -> j < n -> i <> j -> sup (p i) (p j) = None) ->
+  forall fuel, n < fuel ->
+  exists g, search fuel (map blk (seq 0 n)) = Some [(Hd, (g, seq 0 n))] /\
+            abg_payloads g = map (fun i => [Some (p i)]) (seq 0 n).
+Proof. intros. eapply flat_blocks_one_family; eauto. Qed.
+Print Assumptions C03_flat_blocks_one_family.
+
+Theorem C02_flat_blocks_exact_coverage : forall W tr self B TR a n names T p items,
+  let blk := fun i => flat_block (names i) tr self B (T i) (items i) in
+  let Hd := Node (K "GroupId" "") [tr; self] in
+  (forall i, i < n -> path_bindings (T i) = [(a, p i)]) ->
+  (forall i, i < n -> trait_ref (T i) = TR) ->
+  (forall rho, is_sized_path (apply rho TR) = false) ->
+  forall q, main_applies term term (keyvals W Hd B TR a) (map (member_of W Hd blk p) (seq 0 n)) q = true <->
+            exists i, i < n /\ applies W (blk i) q = true.
+Proof. intros. eapply flat_blocks_exact_coverage; eauto. Qed.
+Print Assumptions C02_flat_blocks_exact_coverage.
+
+(* a concrete instance: impl<T> K for T where T: D<G = GA>  and  ... D<G = GB> *)
+Example C03_flat_blocks_nonvacuous :
+  let tr := osome (path1 "K" anone) in
+  let T := fun i => path1 "D" (aangle [gassoc "G" (tC0 (match i with O => "GA" | _ => "GB" end))]) in
+  let p := fun i => tC0 (match i with O => "GA" | _ => "GB" end) in
+  let blk := fun i => flat_block [pid "0"] tr (tP "0") (tP "0") (T i) (Node (K "Items" "") []) in
+  blk 0 <> blk 1 /\ cwf [] (Node (K "GroupId" "") [tr; tP "0"]) = true /\
+  path_bindings (T 0) = [("G"%string, p 0)] /\ path_bindings (T 1) = [("G"%string, p 1)] /\
+  tb_eqb (T 0) (T 1) = true /\ tb_eqb (T 1) (T 0) = true /\
+  sup (p 0) (p 1) = None /\ sup (p 1) (p 0) = None /\
+  trait_ref (T 0) = trait_ref (T 1) /\
+  option_map (map (fun e => snd (snd e))) (search 9 [blk 0; blk 1]) = Some [[0; 1]].
+Proof. vm_compute. repeat split; try reflexivity. discriminate. Qed.
+Print Assumptions C03_flat_blocks_nonvacuous.
 
 (* ===================================================================================== *)
 (* C06 -- independence from parameter names (canonicalisation commutes with any consistent   *)
